@@ -24,7 +24,10 @@ Record case8 := mkC8 {
   k_wire_lo : bool ;
   k_max_gamma : Q ;
   k_max_backjumps : option Z ;
-  k_runs : list run8
+  k_runs : list run8 ;
+  k_oracle : bool            (* harness: the independent brute-force oracle (harness/c08.py: judge) ACCEPTS the recorded
+                                outputs.  false makes the case count as a disagreement, so that run.py judges and reports it
+                                even when model and implementation agree with each other. *)
 }.
 
 Definition input_of (k : case8) (tape : nat -> Q) : fc_input :=
@@ -49,7 +52,7 @@ Definition cmp_run (k : case8) (r : run8) : option (list bool) :=
 Definition chk_run (k : case8) (r : run8) : bool :=
   match cmp_run k r with Some l => forallb (fun b => b) l | None => false end.
 
-Definition chk_c08 (k : case8) : bool := forallb (chk_run k) (k_runs k).
+Definition chk_c08 (k : case8) : bool := forallb (chk_run k) (k_runs k) && k_oracle k.
 
 (* diagnosis helper: what the model computes for every run *)
 Definition model_runs (k : case8) : list (option (Q * bool)) :=
